@@ -1250,6 +1250,8 @@ L50:
     }
     direct_dirinfcn_(fcn, &x[1], &l[1], &u[1], n, &f[3], &help, fcndata);
     if (force_stop && *force_stop) {
+	 *minf = f[3];		/* the centre is the only point evaluated so far */
+	 *minpos = 1;
 	 *ierror = -102;
 	 return;
     }
